@@ -353,7 +353,8 @@ type c43case struct {
 	NodesCalls int      `json:"nodes_calls"` // Nodes() is called this many times at every "N:x" step, the client is taken from the last map
 	Path       []string `json:"path"`        // derivation steps: "N:a" "N:b" "Dedicated" "Dedicate"
 	Method     string   `json:"method"`
-	NArgs      int      `json:"nargs"` // length of the variadic argument, if any
+	NArgs      int      `json:"nargs"`              // length of the variadic argument, if any
+	CtxDone    bool     `json:"ctx_done,omitempty"` // the caller's context is already cancelled when the call is made
 }
 
 var c43requestMethods = map[string]bool{"Do": true, "DoMulti": true, "DoCache": true, "DoMultiCache": true, "Receive": true, "DoStream": true, "DoMultiStream": true}
@@ -638,6 +639,12 @@ func c43call(r *vrun.Run, w *c43world, c c43case, subject any, kind, env string,
 	}
 	w.nctx++
 	p := &c43probe{w: w, ctx: context.WithValue(context.Background(), c43ctxKey{}, fmt.Sprintf("ctx#%d", w.nctx))}
+	if c.CtxDone {
+		// the hook decides what happens with a request, also with one whose context is done: it must still be consulted
+		cctx, cancel := context.WithCancel(p.ctx)
+		cancel()
+		p.ctx = cctx
+	}
 	in, fp, ok, unknown := p.args(mv.Type(), c.Method, c.NArgs)
 	if !ok {
 		r.Cap("no canned argument for parameter type " + unknown + " of " + c.Method)
@@ -939,16 +946,21 @@ func TestVerif_C43(t *testing.T) {
 									if r.TimeUp() {
 										return
 									}
-									c := c43case{Replace: rep, Shared: shared, NodesCalls: ncalls, Path: path, Method: m, NArgs: na}
-									key := fmt.Sprintf("%+v", c)
-									r.StateStr(key)
-									if len(path) > 0 || layers > 1 {
-										r.NonTrivialStr(key)
+									for _, done := range []bool{false, true} {
+										if done && !c43requestMethods[m] {
+											continue
+										}
+										c := c43case{Replace: rep, Shared: shared, NodesCalls: ncalls, Path: path, Method: m, NArgs: na, CtxDone: done}
+										key := fmt.Sprintf("%+v", c)
+										r.StateStr(key)
+										if len(path) > 0 || layers > 1 {
+											r.NonTrivialStr(key)
+										}
+										if r.WantSample() && len(path) > 0 && layers > 1 && c43requestMethods[m] && !done {
+											r.Sample(c)
+										}
+										c43check(r, c)
 									}
-									if r.WantSample() && len(path) > 0 && layers > 1 && c43requestMethods[m] {
-										r.Sample(c)
-									}
-									c43check(r, c)
 								}
 							}
 						}
